@@ -148,6 +148,9 @@ func c08Family(name string, rng *rand.Rand) c08Fam {
 		// 4076 = 4096 (first value-log block) - 20 (record header): values that fill blocks exactly, nearly, and overflow them
 		f.valLens = []int{1, 2, 2, 3, 4075, 4076, 4077, 1000, 3000, 4056, 8172, 8171, 20000, 70000}
 		f.ops = 40
+	case "heldsnap":
+		f.pool = [][]byte{} // filled by c08RunHeld
+		f.heavy = true
 	case "batched":
 		// 100..600 keys for the batched snapshot iterators, see c08BatchedKeys
 		f.pool = c08BatchedKeys(rng)
@@ -373,7 +376,7 @@ func c08RunSequence(r *vrep.Report, fam string, seq int) *c08Run {
 	f := c08Family(fam, rng)
 	x := c08NewRun(r, fam, seq, rng)
 	x.pool, x.valLens, x.heavy = f.pool, f.valLens, f.heavy
-	if fam == "limits" || (fam != "batched" && rng.Intn(25) == 0) {
+	if fam == "limits" || (fam != "batched" && fam != "heldsnap" && rng.Intn(25) == 0) {
 		x.step(c08Op{K: "limits", E: uint64(2 + rng.Intn(5)), B: uint64(8 + rng.Intn(30))}, false)
 	}
 	if fam == "fanout" {
@@ -397,6 +400,10 @@ func c08RunSequence(r *vrep.Report, fam string, seq int) *c08Run {
 	}
 	if fam == "batched" {
 		c08RunBatched(x, rng)
+		f.ops = 0
+	}
+	if fam == "heldsnap" {
+		c08RunHeld(x, rng)
 		f.ops = 0
 	}
 	for i := 0; i < f.ops && !x.stop; i++ {
@@ -505,7 +512,7 @@ func c08Parallel(jobs []c08Job) {
 }
 
 func TestVerifC08Random(t *testing.T) {
-	r := vrep.New("C08", "c08-random"+c08Tag(), "seeded random operation sequences (writes with flags, deletes, nested staging/release/cleanup, checkpoint/revert, bounded scans in both directions, snapshot reads, stage inspection, value history, key handles, iterator use after a write, size limits) executed in lock-step on the ART buffer, the RBT buffer and the reference model, every result and a whole-state audit compared after every operation; key families: tiny (all strings over {a,b} up to length 3 incl. the empty key), edgebytes (00/FF strings), longprefix (shared prefixes of 18..45 bytes, divergence around byte 20), random, limits (tiny + small entry/buffer limits), fanout (up to 257 siblings under one node, audits sampled), bigvals (values of 1..70000 bytes crossing value-log blocks), batched (100..600 keys of mixed lengths in dense prefix chains laid out so that the 32/96/224/480-item batch ends of BatchedSnapshotIter fall on chain heads; the snapshot is read through BatchedSnapshotIter / ForEachInSnapshotRange / SnapshotIter forward and reverse, bounded and unbounded, with later writes in between, after cleanup / revert / release); distinct = distinct audited model states (content, flags, stage marks, checkpoints, dirty)")
+	r := vrep.New("C08", "c08-random"+c08Tag(), "seeded random operation sequences (writes with flags, deletes, nested staging/release/cleanup, checkpoint/revert, bounded scans in both directions, snapshot reads, stage inspection, value history, key handles, iterator use after a write, size limits) executed in lock-step on the ART buffer, the RBT buffer and the reference model, every result and a whole-state audit compared after every operation; key families: tiny (all strings over {a,b} up to length 3 incl. the empty key), edgebytes (00/FF strings), longprefix (shared prefixes of 18..45 bytes, divergence around byte 20), random, limits (tiny + small entry/buffer limits), fanout (up to 257 siblings under one node, audits sampled), bigvals (values of 1..70000 bytes crossing value-log blocks), batched (100..600 keys of mixed lengths in dense prefix chains laid out so that the 32/96/224/480-item batch ends of BatchedSnapshotIter fall on chain heads; the snapshot is read through BatchedSnapshotIter / ForEachInSnapshotRange / SnapshotIter forward and reverse, bounded and unbounded, with later writes in between, after cleanup / revert / release), heldsnap (0..3 snapshot iterators - SnapshotIter, SnapshotIterReverse, BatchedSnapshotIter both ways, also over key-less ranges and on the empty buffer - kept open and consumed in steps across staged overwrites, deletes, flag updates, nested stages and new keys that grow inner nodes over 4/16/48 children and make other subtrees allocate nodes of every size class; each yielded item must be the next item of the snapshot as of the iterator's creation); distinct = distinct audited model states (content, flags, stage marks, checkpoints, dirty)")
 	defer r.Finish(t)
 	plan := []struct {
 		fam string
@@ -513,7 +520,7 @@ func TestVerifC08Random(t *testing.T) {
 	}{
 		{"tiny", vrep.Pick(650, 18000)}, {"longprefix", vrep.Pick(650, 18000)}, {"edgebytes", vrep.Pick(500, 12000)},
 		{"random", vrep.Pick(500, 12000)}, {"limits", vrep.Pick(350, 8000)}, {"fanout", vrep.Pick(150, 2500)}, {"bigvals", vrep.Pick(200, 4500)},
-		{"batched", vrep.Pick(100, 2500)},
+		{"batched", vrep.Pick(100, 2500)}, {"heldsnap", vrep.Pick(150, 4000)},
 	}
 	var jobs []c08Job
 	var mu sync.Mutex
@@ -557,6 +564,12 @@ func TestVerifC08Random(t *testing.T) {
 	r.Floor("iter_after_write_panicked_art", 100)
 	r.Floor("bounded_scans_nonempty", 1000)
 	r.Floor("batched_iter_refills", 1)
+	r.Floor("held_items", 5000)
+	r.Floor("held_open_over_keyless_range", 100)
+	r.Floor("held_closed_early", 50)
+	r.Floor("held_node_grown_under_open_iterator_to_5", 30)
+	r.Floor("held_node_grown_under_open_iterator_to_17", 30)
+	r.Floor("held_node_grown_under_open_iterator_to_49", 30)
 	r.Floor("batched_scans_3plus_batches", 200)
 	r.Floor("batched_interleaved_3plus_batches", 30)
 	r.Floor("batched_scans_short_resume_key_after_longer", 50)
